@@ -14,6 +14,9 @@ namespace sim {
 // `failed` says the call reported failure (null / false / invalid model): then the list must be non-empty.
 void checkLogger(Ctx &ctx, const libcellml::LoggerPtr &logger, const std::string &service, const std::string &what, bool failed);
 
+// C15's failure-explained rule for analyses: invalid, under-, over- or unsuitably constrained.
+bool analysisFailed(const libcellml::AnalyserModelPtr &am);
+
 // Pushes every enumerator of Issue::ReferenceRule and CellmlElementType through the metadata accessors.
 void checkRuleTable(Ctx &ctx);
 
